@@ -91,6 +91,25 @@ theorem rolling_sum_null_rows_inert (k : Kind) (w minp : Nat) (hw : 0 < w) (rows
   rw [C09.rolling_sum_eq_window k w minp hw rows i r hi hg hs,
     C09.rolling_sum_eq_window k w minp hw (dropNull rows) (rankNonNull rows i) r hf hg hs, hv r.code hg]
 
+/-- **rolling max / min**: likewise -/
+theorem rolling_extremum_null_rows_inert (k : Kind) (wantMax : Bool) (w minp : Nat) (hw : 0 < w) (hminp : 0 < minp) (rows : List CRow)
+    (hwf : ∀ r ∈ rows, WF k r.val) (i : Nat) (r : CRow)
+    (hi : rows[i]? = some r) (hg : 0 ≤ r.code) (hs : r.sel = true) :
+    (rolling k (if wantMax then .max else .min) w minp rows)[i]? =
+      (rolling k (if wantMax then .max else .min) w minp (dropNull rows))[rankNonNull rows i]? := by
+  obtain ⟨hf, hv⟩ := dropNull_at_rank rows i r hi hg
+  have hwf' : ∀ r ∈ dropNull rows, WF k r.val := fun r hr => hwf r (List.mem_filter.mp hr).1
+  rw [C09.rolling_extremum_eq_window k wantMax w minp hw hminp rows hwf i r hi hg hs,
+    C09.rolling_extremum_eq_window k wantMax w minp hw hminp (dropNull rows) hwf' (rankNonNull rows i) r hf hg hs, hv r.code hg]
+
+/-- **shift / diff** (float view): the row `window` group-rows earlier never is a null-key row -/
+theorem rolling_shift_diff_null_rows_inert (op : RollOp) (hop : op = .shift ∨ op = .diff) (w minp : Nat) (hw : 0 < w) (rows : List CRow)
+    (i : Nat) (r : CRow) (hi : rows[i]? = some r) (hg : 0 ≤ r.code) (hs : r.sel = true) :
+    (rolling .f op w minp rows)[i]? = (rolling .f op w minp (dropNull rows))[rankNonNull rows i]? := by
+  obtain ⟨hf, hv⟩ := dropNull_at_rank rows i r hi hg
+  rw [C09.rolling_shift_diff_eq_window op hop w minp hw rows i r hi hg hs,
+    C09.rolling_shift_diff_eq_window op hop w minp hw (dropNull rows) (rankNonNull rows i) r hf hg hs, hv r.code hg]
+
 /-- **EMA (plain and time-weighted) and every loop of the `loopGo` shape**: a null-key row gets a constant
 marker and the output at any other row is a function of the rows of its own group only — so in
 particular it does not depend on any null-key row -/
